@@ -54,13 +54,8 @@ Definition rne (a D : Z) : Z :=
   | Eq => if Z.even q then q else q + 1
   end.
 
-(* [round_q neg n d]: the double nearest to (-1)^neg * (n/d) units (n >= 0, d > 0). *)
-Definition round_q (neg : bool) (n d : Z) : fl :=
-  let k := ulp_exp (n / d) in
-  let u := rne n (d * 2 ^ k) * 2 ^ k in
-  if UOVER <=? u then FInf neg else FFin neg u.
-
-(* The same for d = 2^s, with shifts instead of divisions (proved equal to [round_q neg n (2^s)]). *)
+(* [round_p2 neg n s]: the double nearest to (-1)^neg * n / 2^s units (n >= 0, s >= 0), i.e.
+   rne n (2^(s+k)) * 2^k with k = ulp_exp (n / 2^s); overflow gives the infinity.  Written with shifts. *)
 Definition rne_p2 (a sh : Z) : Z :=
   if sh <=? 0 then a else
   let q := Z.shiftr a sh in
@@ -75,7 +70,9 @@ Definition round_p2 (neg : bool) (n s : Z) : fl :=
   let u := Z.shiftl (rne_p2 n (s + k)) k in
   if UOVER <=? u then FInf neg else FFin neg u.
 
+
 (* -- arithmetic *)
+Definition fin_or_inf (neg : bool) (u : Z) : fl := if UOVER <=? u then FInf neg else FFin neg u.
 Definition sval (neg : bool) (u : Z) : Z := if neg then - u else u.
 Definition fneg (x : fl) : fl :=
   match x with FNaN => FNaN | FInf s => FInf (negb s) | FFin s u => FFin (negb s) u end.
@@ -104,7 +101,16 @@ Definition fdiv (a b : fl) : fl :=
   | FInf s1, FFin s2 _ => FInf (xorb s1 s2)
   | FFin s1 _, FInf s2 => FFin (xorb s1 s2) 0
   | FFin s1 u1, FFin s2 u2 =>
-      if u2 =? 0 then FNaN else round_q (xorb s1 s2) (Z.shiftl u1 1074) u2
+      if u2 =? 0 then FNaN else
+      (* u1 = m1 * 2^e1, u2 = m2 * 2^e2 (exactly, for representable magnitudes); the quotient in units is
+         (m1 * 2^(e1 + 1074)) / (m2 * 2^e2) *)
+      let e1 := ulp_exp u1 in let m1 := Z.shiftr u1 e1 in
+      let e2 := ulp_exp u2 in let m2 := Z.shiftr u2 e2 in
+      let s := e1 + 1074 - e2 in
+      if 0 <=? s then
+        let k := ulp_exp (Z.shiftl m1 s / m2) in
+        fin_or_inf (xorb s1 s2) (Z.shiftl (rne (Z.shiftl m1 (s - k)) m2) k)
+      else FFin (xorb s1 s2) (rne m1 (Z.shiftl m2 (- s)))
   end.
 (* float(z) for a Python int (also what float + int etc. do to the int operand) *)
 Definition of_Z (z : Z) : fl :=
@@ -116,7 +122,6 @@ Definition upred (u : Z) : Z :=           (* the largest representable magnitude
   if u <=? P53 then u - 1 else let k := Z.log2 (u - 1) - 52 in Z.shiftl (Z.shiftr (u - 1) k) k.
 Definition usucc (u : Z) : Z :=           (* the smallest representable magnitude above u *)
   if u <? P53 then u + 1 else u + Z.shiftl 1 (Z.log2 u - 52).
-Definition fin_or_inf (neg : bool) (u : Z) : fl := if UOVER <=? u then FInf neg else FFin neg u.
 Definition prevfloat (x : fl) : fl :=
   match x with
   | FNaN => FNaN                                  (* not used on NaN *)
